@@ -248,7 +248,7 @@ class Interp:
         if p == "*":
             if k in ("ref", "ptr"):
                 return t["ty"]
-            if k == "adt" and t["path"].endswith("Box") and t.get("args"):
+            if k == "adt" and (t["path"].endswith("Box") or t["path"].endswith("NonNull")) and t.get("args"):
                 return t["args"][0]
             return None
         if p == "cell":
@@ -1089,7 +1089,17 @@ class Interp:
             dest_ty = fn["mir"]["locals"][t["dest"]["l"]]["ty"]
         may_unwind = t.get("unwind") != "unreachable"
         self.cur_fid = fid
-        outs = self.call(st, fn, ce, args, t.get("line"), depth, dest_ty, may_unwind)
+        outs = None
+        if ce["k"] == "fnptr" and "op" in ce:
+            # a call through a function pointer whose value is a known function item
+            try:
+                fv = self.eval_operand(st, fid, ce["op"])
+            except Undecided:
+                fv = None
+            if fv is not None and fv[0] == "const" and isinstance(fv[1], tuple) and fv[1] and fv[1][0] == "fn":
+                outs = self.call_value(st, fv, args, fn, t.get("line"), depth, dest_ty, may_unwind)
+        if outs is None:
+            outs = self.call(st, fn, ce, args, t.get("line"), depth, dest_ty, may_unwind)
         res = []
         for kind, val, s2 in outs:
             if kind == "ret":
@@ -1675,6 +1685,27 @@ def m_discriminant_value(I, st, fn, ce, args, line, depth, dest_ty, may_unwind):
     return None
 
 
+def m_opt_take(I, st, fn, ce, args, line, depth, dest_ty, may_unwind):
+    a = args[0]
+    if a[0] != "ref":
+        return None
+    v = I.load(st, a[1])
+    if v[0] in ("agg", "op"):
+        I.store(st, a[1], _opt(0, []))
+        return [("ret", v, st)]
+    return None
+
+
+def m_opt_unwrap_or_else(I, st, fn, ce, args, line, depth, dest_ty, may_unwind):
+    out = []
+    for k, payload, s2 in I.variants_of(st, args[0]):
+        if k == 1:
+            out += _drop_then(I, s2, args[1], fn, line, depth, payload)
+        else:
+            out += I.call_value(s2, args[1], [], fn, line, depth, dest_ty, may_unwind)
+    return out
+
+
 def m_manually_drop_new(I, st, fn, ce, args, line, depth, dest_ty, may_unwind):
     # the wrapped value will never be dropped implicitly: for ownership purposes this is mem::forget that keeps the value readable
     I.emit(st, {"k": "FORGET", "val": args[0], "via": "ManuallyDrop::new"}, fn, line)
@@ -1735,6 +1766,20 @@ def m_unwrap_unchecked(I, st, fn, ce, args, line, depth, dest_ty, may_unwind):
 
 def m_identity(I, st, fn, ce, args, line, depth, dest_ty, may_unwind):
     return [("ret", args[0], st)]
+
+
+def m_nonnull_as_ref(mut):
+    """NonNull::as_ref / as_mut: `&*ptr` (a NonNull value is represented by the pointer it wraps)"""
+    def f(I, st, fn, ce, args, line, depth, dest_ty, may_unwind):
+        a = args[0]
+        if a[0] == "ref":
+            a = I.load(st, a[1])      # `&self` / `&mut self` of the NonNull
+        loc = _ptr_target(I, st, a)
+        if loc is None:
+            return None
+        I.cell_access(st, loc, mut, fn, line)
+        return [("ret", Ref(loc), st)]
+    return f
 
 
 def m_deref_field0(I, st, fn, ce, args, line, depth, dest_ty, may_unwind):
@@ -1968,12 +2013,24 @@ MODELS = {
     "std::ptr::from_mut": m_identity,
     "std::ptr::mut_ptr::<impl *mut T>::cast": m_identity,
     "std::ptr::NonNull::<T>::as_ptr": m_identity,
+    "std::ptr::NonNull::<T>::new_unchecked": m_identity,
+    "std::ptr::NonNull::<T>::cast": m_identity,
+    "std::ptr::NonNull::<T>::as_ref": m_nonnull_as_ref(False),
+    "std::ptr::NonNull::<T>::as_mut": m_nonnull_as_ref(True),
+    "<std::ptr::NonNull<T> as std::convert::From<&mut T>>::from": m_identity,
+    "<std::ptr::NonNull<T> as std::convert::From<&T>>::from": m_identity,
+    "std::ptr::NonNull::<T>::from_ref": m_identity,
+    "std::ptr::NonNull::<T>::from_mut": m_identity,
     "std::option::Option::<T>::map": m_map_variant(1, True),
     "std::result::Result::<T, E>::map": m_map_variant(0, False),
     "std::result::Result::<T, E>::map_err": m_map_variant(1, False),
     "std::intrinsics::discriminant_value": m_discriminant_value,
     "std::mem::discriminant": m_discriminant_value,
     "std::option::Option::<T>::filter": m_opt_filter,
+    "std::option::Option::<T>::take": m_opt_take,
+    "std::option::Option::<T>::unwrap_or_else": m_opt_unwrap_or_else,
+    "core::panicking::unreachable_display": m_panic,
+    "core::panicking::panic_explicit": m_panic,
     "std::option::Option::<T>::ok_or": m_ok_or(False),
     "std::option::Option::<T>::ok_or_else": m_ok_or(True),
     "std::result::Result::<T, E>::ok": m_res_to_opt(0),
